@@ -121,14 +121,24 @@ func GenerateSet(t *tape.Tape, illFormed bool) *Set {
 			m.Root.Add(S("revision", []string{"2020-01-01", "2021-06-30"}[t.Draw(2)]))
 		}
 	}
-	// definitions
-	for _, m := range all {
+	// definitions: dependency order — a module's submodules first (the module sees
+	// their definitions through its include), modules in import order
+	var defOrder []*Module
+	for _, m := range g.mods {
+		for _, sm := range subs {
+			if sm.BelongsTo == m.Name {
+				defOrder = append(defOrder, sm)
+			}
+		}
+		defOrder = append(defOrder, m)
+	}
+	for _, m := range defOrder {
 		g.features(m)
 		g.identities(m)
 		g.typedefs(m)
 		g.groupings(m)
 	}
-	for _, m := range all {
+	for _, m := range defOrder {
 		g.data(m)
 	}
 	for _, m := range all {
@@ -137,6 +147,7 @@ func GenerateSet(t *tape.Tape, illFormed bool) *Set {
 	for _, m := range g.mods {
 		g.deviations(m)
 	}
+	g.clusters()
 	for _, m := range all {
 		if t.Rare(4) {
 			m.Root.Add(S("rpc", g.name("rpc"), S0("input", g.leaf(m, nil, true).Stmt), S0("output", g.leaf(m, nil, true).Stmt)))
@@ -249,7 +260,7 @@ func (g *gen) features(m *Module) {
 			g.set.Probes["feature_chain"] = true
 		}
 		m.Root.Add(f)
-		if m.Sub && !t.Rare(4) {
+		if m.Sub && !t.Rare(16) {
 			continue // this compiler does not merge features defined in submodules: define, rarely reference
 		}
 		m.Features = append(m.Features, f.Arg)
@@ -284,7 +295,7 @@ func (g *gen) identities(m *Module) {
 			}
 		}
 		m.Root.Add(id)
-		if m.Sub && !t.Rare(4) {
+		if m.Sub && !t.Rare(16) {
 			continue // likewise for identities
 		}
 		m.Identities = append(m.Identities, id.Arg)
@@ -924,6 +935,89 @@ func (g *gen) deviations(m *Module) {
 	}
 }
 
+// clusters creates the shapes in which the ORDER of processing can matter:
+// several modules deviating, or augmenting, one and the same node.
+func (g *gen) clusters() {
+	t := g.t
+	if len(g.mods) < 3 || !t.Rare(3) {
+		return
+	}
+	// target: a leaf (with a default when possible) in a container of the first module
+	base := g.mods[0]
+	var leaves []*DNode
+	for _, c := range g.containersOf(base) {
+		for _, k := range c.Kids {
+			if k.Kind == "leaf" && k.Mod == base && k.Stmt != nil && !strings.HasPrefix(k.Name, "k") && k.Stmt.Find("if-feature") == nil {
+				leaves = append(leaves, k)
+			}
+		}
+	}
+	var importers []*Module
+	for _, m := range g.mods[1:] {
+		for _, v := range g.visible(m) {
+			if v == base {
+				importers = append(importers, m)
+				break
+			}
+		}
+	}
+	if len(importers) < 2 {
+		return
+	}
+	if len(leaves) > 0 && t.Coin() {
+		l := leaves[t.Draw(len(leaves))]
+		tgt := g.schemaPath(importers[0], l)
+		// make the leaf an int32 with a default so that replace/add/delete of default are all meaningful
+		l.Stmt.Kids = []*Stmt{S("type", "int32")}
+		hasDef := t.Coin()
+		if hasDef {
+			l.Stmt.Add(S("default", "5"))
+		}
+		n := 2
+		if len(importers) > 2 && t.Coin() {
+			n = 3
+		}
+		for i := 0; i < n; i++ {
+			m := importers[i]
+			d := S("deviation", tgt)
+			val := fmt.Sprint(100 * (i + 1))
+			switch {
+			case hasDef && t.Draw(3) > 0:
+				d.Add(S("deviate", "replace", S("default", val)))
+			case hasDef:
+				d.Add(S("deviate", "delete", S("default", "5")))
+			case i == 0 || t.Coin():
+				d.Add(S("deviate", "add", S("default", val)))
+			default:
+				d.Add(S("deviate", "replace", S("default", val)))
+			}
+			m.Root.Add(d)
+		}
+		g.set.Probes["deviation_cluster_same_node"] = true
+		return
+	}
+	cs := g.containersOf(base)
+	if len(cs) == 0 {
+		return
+	}
+	c := cs[t.Draw(len(cs))]
+	same := t.Rare(3)
+	nm := g.name("al")
+	for i := 0; i < 2; i++ {
+		m := importers[i]
+		n := nm
+		if !same {
+			n = g.name("al")
+		}
+		a := S("augment", g.schemaPath(m, c), S("leaf", n, S("type", []string{"string", "int8"}[i])))
+		m.Root.Add(a)
+	}
+	g.set.Probes["augment_cluster_same_node"] = true
+	if same {
+		g.set.Probes["augment_cluster_same_name_different_namespace"] = true
+	}
+}
+
 // ---------------------------------------------------------------------------
 // ill-formedness operators
 
@@ -999,6 +1093,27 @@ func (g *gen) breakSomething() {
 			g.set.Ops = append(g.set.Ops, "dangling-include")
 		}
 	case 2: // grouping cycle
+		if t.Coin() {
+			// a cycle inside a submodule, reached from a grouping of the including module
+			for _, sm := range g.set.Mods {
+				if !sm.Sub {
+					continue
+				}
+				own := g.owner(sm)
+				a, b, c := g.name("gcy"), g.name("gcy"), g.name("gcy")
+				sm.Root.Add(S("grouping", a, S("uses", b)))
+				if t.Coin() {
+					sm.Root.Add(S("grouping", b, S("container", g.name("c"), S("uses", c))), S("grouping", c, S("uses", a)))
+				} else {
+					sm.Root.Add(S("grouping", b, S("uses", a)))
+				}
+				if t.Draw(3) > 0 {
+					own.Root.Add(S("grouping", g.name("gen"), S("leaf", g.name("l"), S("type", "string")), S("uses", []string{a, b}[t.Draw(2)])))
+				}
+				g.set.Ops = append(g.set.Ops, "grouping-cycle-in-submodule")
+				return
+			}
+		}
 		gs := g.topLevel("grouping")
 		if len(gs) >= 2 {
 			a, b := gs[0], gs[t.Draw(len(gs))]
